@@ -4525,7 +4525,7 @@ func ruleBlockParserValidatesTables(r *Run) {
 		}
 		return false
 	}
-	var haveIdx, haveCount, haveValues, haveDims, countOff bool
+	var haveIdx, haveCount, haveValues, haveDims, countOff, idxExact bool
 	for _, b := range f.Blocks {
 		ifi, ok := b.Instrs[len(b.Instrs)-1].(*ssa.If)
 		if !ok {
@@ -4551,6 +4551,44 @@ func ruleBlockParserValidatesTables(r *Run) {
 		case token.GEQ, token.GTR, token.LSS, token.LEQ:
 			if elemOf(bo.X, "Uint32") || elemOf(bo.Y, "Uint32") {
 				haveIdx = true
+				// the refusal includes index == number of labels: on the edge that leaves with the error the
+				// relation is index >= N
+				op := bo.Op
+				if !elemOf(bo.X, "Uint32") {
+					switch op {
+					case token.LSS:
+						op = token.GTR
+					case token.GTR:
+						op = token.LSS
+					case token.LEQ:
+						op = token.GEQ
+					case token.GEQ:
+						op = token.LEQ
+					}
+				}
+				refuse := -1
+				for i, s := range b.Succs {
+					for _, x := range s.Instrs {
+						if ret, isRet := x.(*ssa.Return); isRet && isErrorExit(ret) {
+							refuse = i
+						}
+					}
+				}
+				if refuse == 1 {
+					switch op {
+					case token.LSS:
+						op = token.GEQ
+					case token.GTR:
+						op = token.LEQ
+					case token.LEQ:
+						op = token.GTR
+					case token.GEQ:
+						op = token.LSS
+					}
+				}
+				if op == token.GEQ {
+					idxExact = true
+				}
 			}
 			if elemOf(bo.X, "Uint16") || elemOf(bo.Y, "Uint16") {
 				// a sub-block of 8x8x8 voxels can hold 512 different labels, and the encoder emits such sub-blocks:
@@ -4593,6 +4631,7 @@ func ruleBlockParserValidatesTables(r *Run) {
 		}
 	}
 	r.check(haveIdx, "setExportedVars:sub-block-index-below-number-of-labels", "refused", "the parser accepts a block whose sub-block indices point outside its label table: POST blocks with such a block kills the process in the indexing goroutine (index out of range in CalcNumLabels), or — with noindexing — is stored and kills it at the next 2-D read", w.fpos(f))
+	r.check(idxExact, "setExportedVars:sub-block-index-equal-to-number-of-labels-refused", "the refusal starts at index == number of labels", "the parser's bound on a sub-block index lets index == number of labels through (or is missing): the table has entries 0 … N−1, so the readers index one past its end — in POST blocks this happens in the indexing goroutine, outside any recover", w.fpos(f))
 	r.check(haveCount && !countOff, "setExportedVars:sub-block-label-count-bounded", "refused above 512 labels, accepted up to 512", "the parser's bound on the labels of a sub-block is missing or not 'more than 512': either a sub-block that claims more labels than it has voxels is accepted (MakeLabelVolume indexes its 512-entry table past the end), or a full sub-block of 512 labels, which the encoder emits, is refused on re-parse", w.fpos(f))
 	r.check(haveValues, "setExportedVars:packed-values-long-enough", "refused", "the parser accepts a block whose packed values are shorter than its sub-blocks need: the readers run past the end of the value bytes", w.fpos(f))
 	r.check(haveDims, "setExportedVars:no-empty-dimension", "refused", "the parser accepts a block with a dimension of 0 sub-blocks and a label table: the table aliasing indexes an empty slice", w.fpos(f))
@@ -8755,4 +8794,140 @@ func ruleReparseResetsEveryField(r *Run) {
 		}
 	}
 	r.check(n >= 5, "labels.Block:fields-written", fmt.Sprintf("%d", n), "too few fields: rule needs review", "-")
+}
+
+// ---------------------------------------------------------------------------------------------
+// R20.71 — a clamp bounds from above
+
+func init() {
+	register(ruleDef{ID: "R20.71", Prop: "C20", Tier: "quick", Floor: 1,
+		Title: "a clamp on an allocation bounds it from above: where the length or capacity of a make() is a choice between a value and a constant, decided by a comparison of the two, the value is taken on the edge where it is not above the constant (an inverted clamp lets a count from the payload size the allocation and raises small counts to the limit)",
+		Fn:    ruleClampBoundsFromAbove})
+}
+
+func ruleClampBoundsFromAbove(r *Run) {
+	w := r.W
+	n := 0
+	for _, f := range w.RepoFuncs {
+		if len(f.Blocks) == 0 || isTestFunc(w, f) {
+			continue
+		}
+		p := relPkg(pkgPathOf(f))
+		if !(strings.HasPrefix(p, "datatype/") || p == "datastore" || p == "server" || p == "dvid" || strings.HasPrefix(p, "storage")) {
+			continue
+		}
+		k := 0
+		for _, b := range f.Blocks {
+			for _, in := range b.Instrs {
+				mk, ok := in.(*ssa.MakeSlice)
+				if !ok {
+					continue
+				}
+				for _, sz := range []ssa.Value{mk.Len, mk.Cap} {
+					phi, ok := stripConv(sz).(*ssa.Phi)
+					if !ok || len(phi.Edges) != 2 {
+						continue
+					}
+					// one edge a constant, the other a value; the deciding test compares the two
+					ci, vi := -1, -1
+					for i, e := range phi.Edges {
+						if _, isK := constInt(stripConv(e)); isK {
+							ci = i
+						} else {
+							vi = i
+						}
+					}
+					if ci < 0 || vi < 0 {
+						continue
+					}
+					kval, _ := constInt(stripConv(phi.Edges[ci]))
+					val := stripConv(phi.Edges[vi])
+					// a value computed from the length of data that is already in memory needs no upper bound
+					// (a floor such as "at least 10" is the other idiom of this shape)
+					fromLen := false
+					for d := range dataDeps(val) {
+						if c, ok := d.(*ssa.Call); ok {
+							if bi, ok := c.Call.Value.(*ssa.Builtin); ok && (bi.Name() == "len" || bi.Name() == "cap") {
+								fromLen = true
+							}
+						}
+					}
+					if fromLen {
+						continue
+					}
+					// the If that decides: the immediate dominator of the phi's block
+					idom := phi.Block().Idom()
+					if idom == nil || len(idom.Instrs) == 0 {
+						continue
+					}
+					ifi, ok := idom.Instrs[len(idom.Instrs)-1].(*ssa.If)
+					if !ok {
+						continue
+					}
+					cmp, ok := ifi.Cond.(*ssa.BinOp)
+					if !ok {
+						continue
+					}
+					op := cmp.Op
+					x, y := stripConv(cmp.X), stripConv(cmp.Y)
+					ky, isKy := constInt(y)
+					kx, isKx := constInt(x)
+					switch {
+					case isKy && ky == kval && x == val:
+					case isKx && kx == kval && y == val:
+						switch op { // put the value on the left
+						case token.LSS:
+							op = token.GTR
+						case token.GTR:
+							op = token.LSS
+						case token.LEQ:
+							op = token.GEQ
+						case token.GEQ:
+							op = token.LEQ
+						}
+					default:
+						continue
+					}
+					// the edge on which the value reaches the phi
+					vpred := phi.Block().Preds[vi]
+					taken := -1
+					if vpred == idom {
+						for i, s := range idom.Succs {
+							if s == phi.Block() {
+								taken = i
+							}
+						}
+					} else {
+						for i, s := range idom.Succs {
+							if s == vpred || s.Dominates(vpred) {
+								taken = i
+							}
+						}
+					}
+					if taken < 0 {
+						continue
+					}
+					if taken == 1 {
+						switch op {
+						case token.LSS:
+							op = token.GEQ
+						case token.GTR:
+							op = token.LEQ
+						case token.LEQ:
+							op = token.GTR
+						case token.GEQ:
+							op = token.LSS
+						default:
+							continue
+						}
+					}
+					n++
+					k++
+					r.check(op == token.LSS || op == token.LEQ, fmt.Sprintf("%s:make#%d:clamped-from-above", fname(f), k), fmt.Sprintf("the value sizes the allocation only where it is not above %d", kval),
+						fmt.Sprintf("the allocation takes the value where it is above the limit %d and the limit where the value is below it: the clamp is inverted — a count claimed by the payload sizes the allocation (a few bytes of request allocate gigabytes), and every small request pays for the full limit", kval), w.pos(mk.Pos()))
+				}
+			}
+		}
+	}
+	r.check(n >= 1, "repo:clamped-allocations", fmt.Sprintf("%d", n), "none found: rule needs review", "-")
 }
